@@ -197,6 +197,50 @@ def _contains(a, b):
     return False
 
 
+def check_f_setter(ctx, ck, rule='R-FRESH.setter', with_resets=True):
+    prog = ctx.program
+    m = ctx.model
+    # frequency setter
+    st = m.func('mininec.Mininec.f@setter')
+    sfl = ctx.flow(st)
+    derived = {}
+    resets = []
+    for n in walk_no_nested(st.node):
+        if isinstance(n, ast.Assign):
+            for t in n.targets:
+                if isinstance(t, ast.Attribute) and isinstance(t.value, ast.Name) and t.value.id == 'self':
+                    if isinstance(n.value, ast.Constant) and n.value.value is None:
+                        resets.append((t.attr, n))
+                    else:
+                        derived[t.attr] = n
+    ck.floor('wavelength constants derived in the f setter', len(derived), 5)
+    freq_attrs = set(derived)
+    for a, n in sorted(derived.items()):
+        r = sfl.roots(n.value, sfl.node_id_of(n))
+        ext = [x for x in r if x[0] == 'attr' and x[1].startswith('self.') and
+               x[1].split('.')[1] not in freq_attrs | {'f'}]
+        ext += [x for x in r if x[0] == 'param' and x[1] not in ('frq', 'self')]
+        ck.ob(rule, '%s|%s' % (st.qual, a), not ext, st.loc(n),
+              'self.%s derives from the frequency only' % a if not ext else
+              'self.%s depends on %s' % (a, ext))
+    # single writer of the frequency constants
+    for a in sorted(freq_attrs):
+        writers = sorted({e.func.qual for q, es in prog.effects.items() for e in es
+                          if e.cls == 'Mininec' and e.attr == a and e.mode != 'read'})
+        ck.ob(rule, 'single-writer|%s' % a, writers == [st.qual], st.loc(),
+              'writers of Mininec.%s: %s' % (a, writers))
+    # resets must name attributes that some other function reads or writes
+    for a, n in (resets if with_resets else []):
+        users = sorted({e.func.qual for q, es in prog.effects.items() for e in es
+                        if e.attr == a and e.func.qual != st.qual})
+        ck.ob(rule, '%s|reset %s' % (st.qual, a), bool(users), st.loc(n),
+              'reset of self.%s, which is used by %d other functions' % (a, len(users)) if users else
+              'the frequency setter resets self.%s, an attribute nothing else reads or writes '
+              '(stale results of the intended attribute survive a frequency change)' % a)
+    ck.floor('resets in the f setter', len(resets), 2)
+
+
+
 def run(ctx, ck):
     prog = ctx.program
     m = ctx.model
@@ -284,44 +328,7 @@ def run(ctx, ck):
     ck.ob('R-FRESH.solve-order', 'compute_impedance_matrix_loads|single-caller',
           sorted(set(callers)) == ['mininec.Mininec.compute'], f.loc(),
           'callers of the load accumulation: %s' % sorted(set(callers)))
-    # frequency setter
-    st = m.func('mininec.Mininec.f@setter')
-    sfl = ctx.flow(st)
-    derived = {}
-    resets = []
-    for n in walk_no_nested(st.node):
-        if isinstance(n, ast.Assign):
-            for t in n.targets:
-                if isinstance(t, ast.Attribute) and isinstance(t.value, ast.Name) and t.value.id == 'self':
-                    if isinstance(n.value, ast.Constant) and n.value.value is None:
-                        resets.append((t.attr, n))
-                    else:
-                        derived[t.attr] = n
-    ck.floor('wavelength constants derived in the f setter', len(derived), 5)
-    freq_attrs = set(derived)
-    for a, n in sorted(derived.items()):
-        r = sfl.roots(n.value, sfl.node_id_of(n))
-        ext = [x for x in r if x[0] == 'attr' and x[1].startswith('self.') and
-               x[1].split('.')[1] not in freq_attrs | {'f'}]
-        ext += [x for x in r if x[0] == 'param' and x[1] not in ('frq', 'self')]
-        ck.ob('R-FRESH.setter', '%s|%s' % (st.qual, a), not ext, st.loc(n),
-              'self.%s derives from the frequency only' % a if not ext else
-              'self.%s depends on %s' % (a, ext))
-    # single writer of the frequency constants
-    for a in sorted(freq_attrs):
-        writers = sorted({e.func.qual for q, es in prog.effects.items() for e in es
-                          if e.cls == 'Mininec' and e.attr == a and e.mode != 'read'})
-        ck.ob('R-FRESH.setter', 'single-writer|%s' % a, writers == [st.qual], st.loc(),
-              'writers of Mininec.%s: %s' % (a, writers))
-    # resets must name attributes that some other function reads or writes
-    for a, n in resets:
-        users = sorted({e.func.qual for q, es in prog.effects.items() for e in es
-                        if e.attr == a and e.func.qual != st.qual})
-        ck.ob('R-FRESH.setter', '%s|reset %s' % (st.qual, a), bool(users), st.loc(n),
-              'reset of self.%s, which is used by %d other functions' % (a, len(users)) if users else
-              'the frequency setter resets self.%s, an attribute nothing else reads or writes '
-              '(stale results of the intended attribute survive a frequency change)' % a)
-    ck.floor('resets in the f setter', len(resets), 2)
+    check_f_setter(ctx, ck)
 
     # ---------------------------------------------------------------- D3 sweep loop
     mainf = m.func('mininec.main')
